@@ -32,9 +32,9 @@ def op(o, v):
 
 ATOMS = [None, True, False, 0, 1, 5, 2.5, 'a', 'a*', '?', '[ab]*', 'a[bc]', '[!b]b', '[[]', '5', '', {'x': 1}, {},
          op('=', 5), op('<', 5), op('<=', 5), op('>', 5), op('>=', 'a'), op('!=', 5),
-         {'operator': '<'}, op('<', None), op('=', None), op(['<', '>'], 5), op({'not': '<'}, 5)]
+         {'operator': '<'}, op('<', None), op('=', None), op(['<', '>'], 5), op({'not': '<'}, 5), 0.3, 1.0, 9007199254740992.0]
 RECORDED = [ABSENT, None, True, False, 0, 5, 7, 2.5, 'a', 'ab', 'ac', 'a[bc]', '[', '5', '', [1], ['a'], {'x': 1},
-            {'py/type': 'vlib.values.Obj'}]
+            {'py/type': 'vlib.values.Obj'}, 0.30000000000000004, 1.0000000000000002, 2 ** 53 + 1, 10 ** 400, -10 ** 400]
 
 
 def _md(key, rv):
@@ -140,6 +140,13 @@ def run(ctx):
                 judge(ctx, matcher, {'k': alts, 'j': alts}, md, 'core-shared-list')
                 judge(ctx, matcher, {'k': [alts, alts], 'j': [[alts], alts]}, md, 'core-shared-nested-list')
                 ctx.count('filters_sharing_a_list_object', 2)
+    # keys are opaque names: a dotted key is a key, not a path into nested metadata
+    for fv in ATOMS + [[None], [False, None], [1, None]]:
+        for md in ({'k': {'x': 1}}, {'k': {'x': None}}, {'k.x': 1, 'k': {'x': 2}}, {'k': {'x': {'y': 'a'}}}, {}):
+            for key in ('k.x', 'k.x.y'):
+                idx += 1
+                if ctx.mine(idx):
+                    judge(ctx, matcher, {key: fv}, md, 'core-dotted-key')
     ctx.note('exhaustive_core_cases', idx)
     ctx.exhaustive = True  # of the stated core universe; random part below goes beyond
 
